@@ -144,20 +144,20 @@ func TestC09(t *testing.T) {
 		splitLike := false
 		switch kind {
 		case 0:
-			msg = &vestingtypes.MsgSendToVestingAccount{Owner: owner.String(), ToAddress: target.String(), VestingPoolName: "p",
+			msg = &vestingtypes.MsgSendToVestingAccount{Owner: owner.String(), ToAddress: Spell(t, "targetSp", target), VestingPoolName: "p",
 				Amount: sdk.NewInt(int64(rapid.IntRange(0, 1000).Draw(t, "amt"))), RestartVesting: rapid.Bool().Draw(t, "restart")}
 		case 1:
-			msg = &vestingtypes.MsgCreateVestingAccount{FromAddress: signer.String(), ToAddress: target.String(),
+			msg = &vestingtypes.MsgCreateVestingAccount{FromAddress: signer.String(), ToAddress: Spell(t, "targetSp", target),
 				Amount: sdk.NewCoins(sdk.NewInt64Coin(Denom, int64(rapid.IntRange(1, 1000).Draw(t, "amt")))), StartTime: nowS, EndTime: nowS + 1000}
 		case 2:
-			msg = &vestingtypes.MsgSplitVesting{FromAddress: vsender.String(), ToAddress: target.String(),
+			msg = &vestingtypes.MsgSplitVesting{FromAddress: vsender.String(), ToAddress: Spell(t, "targetSp", target),
 				Amount: sdk.NewCoins(sdk.NewInt64Coin(Denom, int64(rapid.IntRange(1, 1000).Draw(t, "amt"))))}
 			splitLike = true
 		case 3:
-			msg = &vestingtypes.MsgMoveAvailableVesting{FromAddress: vsender.String(), ToAddress: target.String()}
+			msg = &vestingtypes.MsgMoveAvailableVesting{FromAddress: vsender.String(), ToAddress: Spell(t, "targetSp", target)}
 			splitLike = true
 		case 4:
-			msg = &vestingtypes.MsgMoveAvailableVestingByDenoms{FromAddress: vsender.String(), ToAddress: target.String(), Denoms: []string{Denom, "uatom"}[:rapid.IntRange(1, 2).Draw(t, "nden")]}
+			msg = &vestingtypes.MsgMoveAvailableVestingByDenoms{FromAddress: vsender.String(), ToAddress: Spell(t, "targetSp", target), Denoms: []string{Denom, "uatom"}[:rapid.IntRange(1, 2).Draw(t, "nden")]}
 			splitLike = true
 		default:
 			isSig = true
